@@ -367,6 +367,30 @@ func c05Run(c *engine.Ctx) {
 			}
 		}
 	}
+	// collections nested to any depth: a point inside 10..500 collections (every depth around 16,
+	// 32, 64 - the initial sizes of parser and writer stacks), the nested collection as the only
+	// member, after a point, and between two points
+	for _, d := range []int{10, 14, 15, 16, 17, 18, 19, 30, 31, 32, 33, 34, 63, 64, 65, 66, 100, 129, 200, 500} {
+		for _, l := range []geom.Layout{geom.XY, geom.XYZM} {
+			for shape := 0; shape < 3; shape++ {
+				g := ref.NewCollection(l, ref.NewPoint(l, true, ref.CounterFrom(5)))
+				for k := 1; k < d; k++ {
+					switch shape {
+					case 0:
+						g = ref.NewCollection(l, g)
+					case 1:
+						g = ref.NewCollection(l, ref.NewPoint(l, true, ref.CounterFrom(float64(k))), g)
+					default:
+						g = ref.NewCollection(l, ref.NewPoint(l, true, ref.CounterFrom(float64(k))), g, ref.NewLine(ref.LineString, l, 2, ref.CounterFrom(float64(2*k))))
+					}
+				}
+				fixAll(g, l)
+				c.Count("deeply_nested_collections", 1)
+				c05Exec(c, c05Case{G: g})
+				c05Exec(c, c05Case{G: g, Style: &ref.WKTStyle{Space: 1, Case: 1}})
+			}
+		}
+	}
 	// float lattice: values placed in XYZM points (4 per point) and as closing ordinates of a ring
 	lat := floatLattice(true)
 	c.Note("float_lattice", len(lat))
